@@ -244,8 +244,10 @@ fn classify_answer(v: &Value) -> AnsKind {
             Some(b) if b.len() >= 2 => AnsKind::Fail(b),
             _ => AnsKind::Malformed,
         },
+        // any hex key is a resolve (R01 judges it); a key that is not 32 bytes is in addition
+        // not well-formed (R06a, checked by the caller)
         Some("resolve") => match hexf("payment_key") {
-            Some(b) if b.len() == 32 => AnsKind::Resolve(b),
+            Some(b) => AnsKind::Resolve(b),
             _ => AnsKind::Malformed,
         },
         _ => AnsKind::Malformed,
@@ -268,6 +270,11 @@ pub fn on_answer(w: &mut World, u: usize, json: Value) {
     if kind == AnsKind::Malformed {
         w.violate("C06", "R06a", "R06a|malformed-answer".into(), format!("HTLC #{u} answer not well-formed: {}", short(&json)));
         return;
+    }
+    if let AnsKind::Resolve(k) = &kind {
+        if k.len() != 32 {
+            w.violate("C06", "R06a", "R06a|payment-key-not-32-bytes".into(), format!("HTLC #{u} resolved with a {}-byte key", k.len()));
+        }
     }
     let label = w.htlcs[u].spec.label.clone();
     let in_window = w.htlcs[u].delivered_step == w.step;
